@@ -387,7 +387,8 @@ class error_997_visitor(error_visitor.error_visitor):
             seg_base.append('%i:%i' % (err_ele.ele_pos, err_ele.subele_pos))
         else:
             seg_base.append('%i' % (err_ele.ele_pos))
-        if err_ele.ele_ref_num:
+        if err_ele.ele_ref_num and err_ele.ele_ref_num.isdigit():
+            # AK402 is numeric: a composite (C023) has no data element number
             seg_base.append(err_ele.ele_ref_num)
         #else:
         #    seg_base.append('')
